@@ -65,6 +65,10 @@ def tap3Knowledge : List String :=
    "required.get(acl.target_router, set()) | {'username', 'password', 'ip_address'}",
    "{**known, 'username': username, 'password': password}"]
 
+/-- `TAP003._exploit` right before it indexes `malicious_acls` (`Tap3.exploitBody`, first line): an empty list completes the stage. -/
+def tap3ExploitEmptyGuard : List String :=
+  ["self._num_acls == 0", "self.chosen_action = ('do-nothing', {})", "self._progress_kill_chain()", "return"]
+
 /-- Every assignment to `actions_concluded` under game/agent/scripted_agents: (file, function, value).  One writer. -/
 def concludedWriters : List (String × String × String) := [("abstract_tap.py", "_tap_outcome_handler", "True")]
 
